@@ -13,17 +13,33 @@ import Proofs.SeqInv
 namespace Pulser
 namespace C02
 
-/-- States reachable from a fresh sequence by any finite call history. -/
+/-- States reachable from a fresh sequence by any finite history of API calls, with oracle
+answers (fall times of scheduler-made detuned-delay pulses, any values) arriving at any time. -/
 def Reach (dev : Device) (nQ : Nat) (s : SeqState) : Prop :=
-  ∃ ops : List Op, s = run (SeqState.init dev nQ) ops
+  ∃ evs : List Ev, s = runEv (SeqState.init dev nQ) evs
 
-theorem run_SG {s : SeqState} (hd : DevOk s.dev) (hi : SeqInv s) (ops : List Op) :
-    SG s (run s ops) := by
+theorem runEv_calls (s : SeqState) (ops : List Op) : runEv s (ops.map Ev.call) = run s ops := by
   induction ops generalizing s with
+  | nil => rfl
+  | cons op rest ih => exact ih _
+
+/-- A plain call history (no oracle answer needed) is a history. -/
+theorem Reach.of_run (dev : Device) (nQ : Nat) (ops : List Op) :
+    Reach dev nQ (run (SeqState.init dev nQ) ops) :=
+  ⟨ops.map Ev.call, (runEv_calls _ ops).symm⟩
+
+theorem stepEv_SG {s : SeqState} (hd : DevOk s.dev) (hi : SeqInv s) (ev : Ev) : SG s (stepEv s ev) := by
+  cases ev with
+  | call op => exact stepRaw_RG hd hi op
+  | oracle n d du fs fe => exact injectOracle_SG hi n d du fs fe
+
+theorem run_SG {s : SeqState} (hd : DevOk s.dev) (hi : SeqInv s) (evs : List Ev) :
+    SG s (runEv s evs) := by
+  induction evs generalizing s with
   | nil => exact SG.rfl' hi
-  | cons op rest ih =>
-    have h1 := stepRaw_RG hd hi op
-    have h2 : SG (stepRaw s op).st (run (stepRaw s op).st rest) :=
+  | cons ev rest ih =>
+    have h1 := stepEv_SG hd hi ev
+    have h2 : SG (stepEv s ev) (runEv (stepEv s ev) rest) :=
       ih (by rw [h1.2.1]; exact hd) h1.1
     exact SG.trans h1 h2
 
@@ -111,9 +127,9 @@ theorem append_only (s : SeqState) (hd : DevOk s.dev) (hi : SeqInv s) (op : Op) 
   exact ⟨c', h1, h2.2.1, h2.2.2.1⟩
 
 /-- The same over whole histories. -/
-theorem append_only_run (s : SeqState) (hd : DevOk s.dev) (hi : SeqInv s) (ops : List Op) :
+theorem append_only_run (s : SeqState) (hd : DevOk s.dev) (hi : SeqInv s) (ops : List Ev) :
     ∀ (i : Nat) (c : ChanState), s.chans[i]? = some c →
-      ∃ c', (run s ops).chans[i]? = some c' ∧ c'.name = c.name ∧ c.slots <+: c'.slots := by
+      ∃ c', (runEv s ops).chans[i]? = some c' ∧ c'.name = c.name ∧ c.slots <+: c'.slots := by
   intro i c hc
   obtain ⟨c', h1, h2⟩ := (run_SG hd hi ops).2.2.2 i c hc
   exact ⟨c', h1, h2.2.1, h2.2.2.1⟩
